@@ -31,7 +31,7 @@ def op_variants(op, n, c, nbits, rng, quick):
         ms = []
         for _ in range(2 if quick else 4):
             m = [rng.random() < 0.4 for _ in range(c)]
-            ms.append({"mask": m, "value": rng.choice([0, 1, top])})
+            ms.append({"mask": m, "value": rng.choice([0, 1, top] + ([-3, 1000] if nbits == 32 else []))})
         ms.append({"mask": [False] * c, "value": 0})
         return ms
     if op == "extract_chans":
